@@ -102,10 +102,26 @@ func (e *env) entries() []entry {
 			_, _ = doctransformer.New().TransformDocument(rm, info)
 		}
 	}
+	// typed patches that follow the patch under test in one list: whatever that patch leaves behind is what they are given
+	var followers []patch.Patch
+	for _, mk := range []func() (patch.Patch, error){
+		func() (patch.Patch, error) {
+			return patch.NewAddServiceEndpointsPatch(`[{"id":"verif-follower","type":"T","serviceEndpoint":"https://follower.example/"}]`)
+		},
+		func() (patch.Patch, error) { return patch.NewAddAlsoKnownAs(`["https://follower.example/aka"]`) },
+		func() (patch.Patch, error) { return patch.NewRemovePublicKeysPatch(`["verif-no-such-key"]`) },
+	} {
+		if f, err := mk(); err == nil {
+			followers = append(followers, f)
+		}
+	}
 	applyPatch := func(p patch.Patch) {
 		_ = patchvalidator.Validate(p)
 		for _, d := range e.docs {
 			if res, err := e.composer.ApplyPatches(freshDoc(d), []patch.Patch{p}); err == nil && res != nil {
+				transform(res)
+			}
+			if res, err := e.composer.ApplyPatches(freshDoc(d), append([]patch.Patch{p}, followers...)); err == nil && res != nil {
 				transform(res)
 			}
 		}
